@@ -104,12 +104,12 @@ func VerifNewStreamBuffer(next uint64) *VerifStreamBuffer {
 	return &VerifStreamBuffer{sb}
 }
 
-func (v *VerifStreamBuffer) Write(f *Frame) (bool, error)  { return v.sb.Write(f) }
-func (v *VerifStreamBuffer) Read(b []byte) (int, error)    { return v.sb.Read(b) }
-func (v *VerifStreamBuffer) Close() error                  { return v.sb.Close() }
-func (v *VerifStreamBuffer) Parked() int                   { return len(v.sb.sh) }
-func (v *VerifStreamBuffer) Buffered() int                 { return v.sb.buf.buf.Len() }
-func (v *VerifStreamBuffer) Next() uint64                  { return v.sb.nextRecvSeq }
+func (v *VerifStreamBuffer) Write(f *Frame) (bool, error) { return v.sb.Write(f) }
+func (v *VerifStreamBuffer) Read(b []byte) (int, error)   { return v.sb.Read(b) }
+func (v *VerifStreamBuffer) Close() error                 { return v.sb.Close() }
+func (v *VerifStreamBuffer) Parked() int                  { return len(v.sb.sh) }
+func (v *VerifStreamBuffer) Buffered() int                { return v.sb.buf.buf.Len() }
+func (v *VerifStreamBuffer) Next() uint64                 { return v.sb.nextRecvSeq }
 
 const (
 	VerifClosingNothing = closingNothing
